@@ -142,6 +142,11 @@ def inputs_c01_c02(tier, rng):
             for seq in class_sequences(CORE + EXTRA, n):
                 out.append(("seq-wide", " ".join(seq)))
                 out.append(("seq-wide-dense", "".join(seq)))
+                if n == 2:
+                    # the same pairs where expressions, patterns and types are expected: in a function body, behind `case x {`,
+                    # in a parameter list, in a type body
+                    for pre in ("fn f() { ", "fn f(v) { case v { ", "fn f(", "type T { V("):
+                        out.append(("seq-wide-in-context", pre + " ".join(seq)))
     progs = gen_programs(rng, 400 if tier == "quick" else 6000)
     alpha = CORE + EXTRA
     for m, t in progs:
